@@ -307,4 +307,86 @@ theorem generateR_aio_fixpoint {σ : Type} (rp : Repair) (hrp : rp.shadowAio = t
       exact visibleDisk_write rp hrp n d _ rfl
   rw [this]
 
+
+/-! ### `new` without `-getset`: the run writes no accessor interface, and reads them only from files it does not write -/
+
+/-- writing a file without interface definitions over files without interface definitions changes no look-up -/
+theorem findDef_writeFile_nodefs (d : Disk) (g : GFile) (hg : g.defs = [])
+    (hd : ∀ f ∈ d, f.name = g.name → f.defs = []) (i : String) : findDef (writeFile d g) i = findDef d i := by
+  apply findDef_congr
+  have hgi : defines i g = false := by simp [defines, hg]
+  simp only [writeFile, List.filter_cons, hgi, Bool.false_eq_true, ↓reduceIte, List.filter_filter]
+  apply List.filter_congr
+  intro f hf
+  by_cases hn : f.name = g.name
+  · have : defines i f = false := by simp [defines, hd f hf hn]
+    simp [this]
+  · simp [hn]
+
+theorem findDef_afterRun_nodefs : ∀ (W d : Disk), (∀ g ∈ W, g.defs = []) →
+    (∀ f ∈ d, f.name ∈ W.map (·.name) → f.defs = []) → ∀ i, findDef (afterRun d W) i = findDef d i := by
+  intro W
+  induction W with
+  | nil => intro d _ _ i; rfl
+  | cons g W ih =>
+    intro d hW hd i
+    have hg : g.defs = [] := hW g (List.mem_cons_self ..)
+    have e : afterRun d (g :: W) = afterRun (writeFile d g) W := rfl
+    rw [e, ih (writeFile d g) (fun x hx => hW x (List.mem_cons_of_mem _ hx)) ?_ i,
+      findDef_writeFile_nodefs d g hg (fun f hf hn => hd f hf (by simp [hn])) i]
+    intro f hf hfn
+    simp only [writeFile, List.mem_cons, List.mem_filter] at hf
+    rcases hf with rfl | ⟨hf, _⟩
+    · exact hg
+    · exact hd f hf (by simp [hfn])
+
+/-- without `-getset` no accessor interface is generated: the file of the type declares nothing that is ever read back -/
+theorem newStep_nogetset_defs (lk : Leaks) (fl : NFlags) (hg : fl.getset = false) (files : Disk) (st : NSt) (t : NType) (o : NOut)
+    (h : (newStep lk fl files st t).2 = some o) : (newGFile t o).defs = [] := by
+  simp only [newStep, newCore, Option.some.injEq] at h
+  subst h
+  simp [newGFile, mkIface, hg]
+
+/-- `new` without `-getset` at HEAD over two directories that answer every interface look-up alike: the same run -/
+theorem generate_nogetset_congr (fl : NFlags) (hg : fl.getset = false) (a b : Disk) (h : ∀ i, findDef a i = findDef b i)
+    (ts : List NType) : generate (newMachine noLeaks fl) a ts = generate (newMachine noLeaks fl) b ts := by
+  have hind : StateIndep (newMachine noLeaks fl) := fun files s t => by
+    show (newStep noLeaks fl files s t).2 = (newStep noLeaks fl files {} t).2
+    rw [newStep_noLeaks]
+  have hst : ∀ o, (newMachine noLeaks fl).stale o = false := fun _ => by simp [newMachine, hg]
+  have e : ∀ d, generate (newMachine noLeaks fl) d ts
+      = ts.filterMap (fun t => (solo (newMachine noLeaks fl) d t).map (fun o => (t, o))) := by
+    intro d
+    have := loop_eq_solo (newMachine noLeaks fl) hst d ts { st := (newMachine noLeaks fl).init, overlay := [], outs := [] } rfl
+      (runIndep_of_stateIndep _ hind d ts _)
+    simpa [generate] using this
+  rw [e a, e b]
+  have hs : ∀ t, solo (newMachine noLeaks fl) a t = solo (newMachine noLeaks fl) b t := by
+    intro t
+    show (newStep noLeaks fl a {} t).2 = (newStep noLeaks fl b {} t).2
+    rw [newStep_agree noLeaks fl (fun _ => True) (fun i _ => h i) (fun _ _ _ _ _ _ => trivial) {} t (fun _ _ => ⟨trivial, trivial⟩)]
+  simp only [hs]
+
+/-- every output of such a run is the output of a step -/
+theorem generate_nogetset_mem (fl : NFlags) (hg : fl.getset = false) (d : Disk) (ts : List NType) :
+    ∀ p ∈ generate (newMachine noLeaks fl) d ts, (newGFile p.1 p.2).defs = [] := by
+  have hind : StateIndep (newMachine noLeaks fl) := fun files s t => by
+    show (newStep noLeaks fl files s t).2 = (newStep noLeaks fl files {} t).2
+    rw [newStep_noLeaks]
+  have hst : ∀ o, (newMachine noLeaks fl).stale o = false := fun _ => by simp [newMachine, hg]
+  have e : generate (newMachine noLeaks fl) d ts
+      = ts.filterMap (fun t => (solo (newMachine noLeaks fl) d t).map (fun o => (t, o))) := by
+    have := loop_eq_solo (newMachine noLeaks fl) hst d ts { st := (newMachine noLeaks fl).init, overlay := [], outs := [] } rfl
+      (runIndep_of_stateIndep _ hind d ts _)
+    simpa [generate] using this
+  intro p hp
+  rw [e, List.mem_filterMap] at hp
+  obtain ⟨t, _, ht⟩ := hp
+  cases hs : solo (newMachine noLeaks fl) d t with
+  | none => rw [hs] at ht; cases ht
+  | some o =>
+    rw [hs] at ht
+    cases ht
+    exact newStep_nogetset_defs noLeaks fl hg d {} t o hs
+
 end ShootVerif.GenState
